@@ -17,10 +17,37 @@ CONFIG = {
         engine="crash",
         level="fault_enumeration",
         tiers=dict(
-            quick=dict(runs=64, opts=dict(faultspec=dict(mode="sample", count=28, interrupts=3), real_frac=0.06, real_count=5, pairs=0, limit=300)),
+            quick=dict(runs=64, opts=dict(faultspec=dict(mode="sample", count=36, interrupts=3), real_frac=0.06, real_count=8, pairs=0, limit=300)),
             thorough=dict(runs=1600, opts=dict(faultspec=dict(mode="all", interrupts=40), slices=4, real_frac=0.04, real_count=12, pairs=1, limit=900)),
         ),
         det=dict(quick=8, thorough=32),
+    ),
+    "C37": dict(
+        engine="store",
+        level="exploration",
+        tiers=dict(
+            quick=dict(runs=2000, opts=dict(config="c37")),
+            thorough=dict(runs=200000, opts=dict(config="c37")),
+        ),
+        det=dict(quick=32, thorough=256),
+    ),
+    "C36": dict(
+        engine="store",
+        level="exploration",
+        tiers=dict(
+            quick=dict(runs=1500, opts=dict(config="c36")),
+            thorough=dict(runs=150000, opts=dict(config="c36")),
+        ),
+        det=dict(quick=32, thorough=256),
+    ),
+    "C39": dict(
+        engine="store",
+        level="exploration",
+        tiers=dict(
+            quick=dict(runs=2000, opts=dict(config="c39")),
+            thorough=dict(runs=200000, opts=dict(config="c39")),
+        ),
+        det=dict(quick=32, thorough=256),
     ),
 }
 
@@ -138,7 +165,7 @@ def run_check(args):
         out(f"KNOWN-FINDING: property={prop} {f['what']} (seen {n}x)")
     nviol = 0
     replays = []
-    MAX_GROUPS, MAX_SHRUNK = 12, 5
+    MAX_GROUPS, MAX_SHRUNK = 10, 10
     ordered = sorted(groups.items(), key=lambda kv: str(kv[0]))
     if getattr(args, "only_key", None):
         ordered = [kv for kv in ordered if args.only_key in str(kv[0])]
@@ -156,7 +183,7 @@ def run_check(args):
             return batch.EXIT_HARNESS
         small, rs = case, res1
         if gi < MAX_SHRUNK:
-            cand = batch.shrink_case(cfg["engine"], case, res1, budget_s=120)
+            cand = batch.shrink_case(cfg["engine"], case, res1, budget_s=60)
             rc = batch.run_case(cfg["engine"], cand)
             if batch.violation_class(rc) == cls and not rc.get("harness_error"):
                 small, rs = cand, rc
@@ -170,6 +197,27 @@ def run_check(args):
         out(f"VIOLATION property={prop} replay={path}")
         replays.append(path)
         exit_code = batch.EXIT_VIOLATION
+    # regression: the replay files of repaired findings must stay quiet
+    regress = 0
+    kf = os.path.join(env.VERIF, "known_findings.json")
+    if os.path.exists(kf):
+        for f in json.load(open(kf)).get("findings", []):
+            if f.get("property") != prop or f.get("status") != "fixed":
+                continue
+            for rp in f.get("replays", []):
+                full = os.path.join(env.VERIF, rp)
+                body = json.load(open(full))
+                rr = batch.run_case(body["engine"], body["case"])
+                regress += 1
+                if rr.get("harness_error"):
+                    out(f"HARNESS-ERROR regression replay {rp}: {rr['harness_error']}")
+                    return batch.EXIT_HARNESS
+                if rr["violations"]:
+                    nviol += 1
+                    out(f"  repaired finding {f['id']} is back: {rr['violations'][0]['msg'][:300]}")
+                    out(f"VIOLATION property={prop} replay={full}")
+                    replays.append(full)
+                    exit_code = batch.EXIT_VIOLATION
     if len(ordered) > MAX_GROUPS:
         out(f"  ... and {len(ordered) - MAX_GROUPS} more distinct violation groups (not replayed individually)")
 
@@ -183,6 +231,7 @@ def run_check(args):
             cov["determinism"] = {k: det[k] for k in ("seeds", "comparisons", "mismatches")}
         cov["known_findings_seen"] = {fid: n for fid, (f, n) in known_seen.items()}
         cov["replays"] = replays
+        cov["regression_replays_of_fixed_findings"] = regress
         batch.write_evidence(prop, args.tier, args.seed, cfg["level"], cov, wall, nviol, getattr(mod, "ASSUMPTIONS", []))
     out(f"{prop} {args.tier}: {len(results)} runs, {nviol} violation(s), {len(known_seen)} known finding(s), {wall:.1f}s")
     return exit_code
